@@ -325,6 +325,17 @@ def check_tables(world):
             continue
         have = ctor_params(c)
         want = CTOR_PARAMS[name]
+        # a parameter added with a default value leaves every configuration of the tables valid
+        f = c.lookup('__init__') if c.has('__init__') else None
+        optional = set()
+        if f is not None:
+            a = f.node.args
+            pos = [x.arg for x in a.posonlyargs + a.args]
+            optional |= set(pos[len(pos) - len(a.defaults):])
+            optional |= {k.arg for k, d in zip(a.kwonlyargs, a.kw_defaults) if d is not None}
+        extra = [p for p in have if p not in want]
+        if extra and all(p in optional for p in extra) and sorted(p for p in have if p in want) == sorted(want):
+            continue
         # vararg position is irrelevant to the partition
         if sorted(have) != sorted(want):
             problems.append(f'constructor of {name} changed: parameters {have}, tables written '
